@@ -50,6 +50,18 @@ def make(ID, algos, gens, judge_fn, quick, thorough, corpus_cases=(), known_algo
             res.dist["bounded-exhaustive cases"] += k
         for i in range(0, len(items), 2000):
             judge(ctx, res, execute(ctx, items[i : i + 2000]))
+        # histories on ONE input object (the solvers key their tables by the input): the costs of the object are changed
+        # in place between calls, as the package's own tests do; each call must answer like a fresh input
+        from .. import gen
+
+        rng = ctx.rng
+        pool = [(c, a) for c, a in items if solvers.nontrivial(c) and not c.get("root")]
+        for c, a in rng.sample(pool, min(len(pool), ctx.budget(40, 400))):
+            plain = solvers.MODE[a] == "plain"
+            other = gen.rand_costs(rng, plain=plain)
+            if not solvers.inplace_history(res, c, dict(solvers.full_costs(c), **other), a,
+                                           what_prefix="solver reused on one input object: "):
+                break
 
     def fails_one(ctx):
         def f(case):
@@ -66,6 +78,8 @@ def make(ID, algos, gens, judge_fn, quick, thorough, corpus_cases=(), known_algo
     def replay(ctx, data):
         inp = data["input"]
         r = Result()
+        if "history" in inp:
+            return solvers.replay_inplace(inp)
         judge(ctx, r, execute(ctx, [(inp["case"], inp["algo"])]))
         ok = not r.concrete
         return ok, ("ok: property holds on this input" if ok else "still fails: " + r.concrete[0]["what"])
